@@ -102,6 +102,9 @@ func ZZ_C02_cash() {
 // dropped, one letter changed) never let a string through, with a checksum valid for that prefix.
 func ZZ_C02_prefix() {
 	net := zzNet()
+	if vParam("thorough", 0) == 0 && net != &chaincfg.MainNetParams && net != &chaincfg.SimNetParams {
+		return // quick: two nets (one with, one without an SLP prefix)
+	}
 	base := net.CashAddressPrefix
 	if vCase("slp", 0, 1) == 1 {
 		base = net.SlpAddressPrefix
@@ -116,7 +119,10 @@ func ZZ_C02_prefix() {
 	case 1:
 		pfx = base[:len(base)-1]
 	case 2:
-		i := vCase("pos", 0, len(base)-1)
+		i := vCase("pos", 0, 1) * (len(base) - 1) // first or last letter
+		if vParam("thorough", 0) == 1 {
+			i = vCase("anypos", 0, len(base)-1)
+		}
 		b := []byte(base)
 		b[i] = zzLetters[vSym("repl", 5)]
 		pfx = string(b)
@@ -126,7 +132,7 @@ func ZZ_C02_prefix() {
 	}
 	vAssume(pfx != net.CashAddressPrefix && pfx != net.SlpAddressPrefix)
 	n := 34
-	if vCase("long", 0, 1) == 1 {
+	if vParam("thorough", 0) == 1 && vCase("long", 0, 1) == 1 {
 		n = 53
 	}
 	pay := vSyms("pay", n, 5)
